@@ -1040,6 +1040,34 @@ std::string sqf::parser::preprocessor::impl_default::instance::parse_file(::sqf:
     sstream << "#line 0 \"" << fileinfo.pathinf.physical << "\"\n";
     bool was_new_line = true;
     bool is_in_string = false;
+    // The line a reader of the output is at behind everything written so far (the marker above and
+    // its newline make that 1). Whatever is consumed from the input, the output continues at the line
+    // the input is at: see sync_line.
+    size_t out_line = 1;
+    auto write = [&](std::string_view text)
+    {
+        sstream << text;
+        out_line += static_cast<size_t>(std::count(text.begin(), text.end(), '\n'));
+    };
+    // Ends the line (at_newline) or continues in it such that the next character written is at
+    // the line the input is at. Lines consumed without output (continued lines of a directive,
+    // a macro call or a string in an inactive section) are made up for with empty lines;
+    // if more lines were written than consumed, a #line marker sets the count right.
+    auto sync_line = [&](bool at_newline)
+    {
+        if (out_line < fileinfo.line)
+        {
+            while (out_line < fileinfo.line)
+            {
+                write("\n");
+            }
+        }
+        else if (out_line > fileinfo.line || at_newline)
+        {
+            sstream << "\n#line " << (fileinfo.line - 1) << " \"" << fileinfo.pathinf.physical << "\"\n";
+            out_line = fileinfo.line;
+        }
+    };
     while ((c = fileinfo.next()) != '\0')
     {
         if (is_in_string)
@@ -1049,7 +1077,7 @@ std::string sqf::parser::preprocessor::impl_default::instance::parse_file(::sqf:
                 is_in_string = false;
             }
             if (current_file_scope().conditions.empty() || current_file_scope().conditions.back().allow_write)
-                sstream << c;
+                write(std::string_view(&c, 1));
             continue;
         }
         switch (c)
@@ -1070,7 +1098,9 @@ std::string sqf::parser::preprocessor::impl_default::instance::parse_file(::sqf:
                         {
                             return res;
                         }
-                        sstream << res << c;
+                        write(res);
+                        sync_line(false);
+                        sstream << c;
                     }
                     else
                     { // No macro, or a function-like macro that is not called
@@ -1087,12 +1117,22 @@ std::string sqf::parser::preprocessor::impl_default::instance::parse_file(::sqf:
             {
                 if (c == '#' && was_new_line)
                 {
+                    auto line_of_directive = fileinfo.line;
                     auto res = parse_ppinstruction(runtime, fileinfo);
                     if (m_errflag)
                     {
                         return res;
                     }
-                    sstream << res;
+                    if (res == "\n")
+                    { // A directive without output: its line, and the lines that continued it, end here
+                      // (unless the file ended with it)
+                        sync_line(fileinfo.line != line_of_directive);
+                    }
+                    else
+                    { // An included file, it ends with the #line marker of the line the input is at
+                        sstream << res;
+                        out_line = fileinfo.line;
+                    }
                     break;
                 }
             }
@@ -1117,21 +1157,23 @@ std::string sqf::parser::preprocessor::impl_default::instance::parse_file(::sqf:
                             {
                                 return res;
                             }
-                            sstream << res;
+                            write(res);
+                            sync_line(false);
                         }
                         else
                         {
-                            sstream << word << c;
+                            sstream << word;
+                            if (c == '\n') { sync_line(true); } else { sstream << c; }
                         }
                     }
                     else
                     {
-                        sstream << c;
+                        if (c == '\n') { sync_line(true); } else { sstream << c; }
                     }
                 }
                 else if (c == '\n')
                 {
-                    sstream << c;
+                    sync_line(true);
                 }
             } break;
             case 'a': case 'b': case 'c': case 'd': case 'e':
